@@ -17,6 +17,7 @@ import (
 	"testing"
 	"time"
 
+	"github.com/nuetzliches/hookaido/internal/queue"
 	"github.com/nuetzliches/hookaido/internal/verifhook"
 	"github.com/nuetzliches/hookaido/internal/verifkit"
 	"pgregory.net/rapid"
@@ -194,6 +195,17 @@ func runProbe(w *frontWorld, p probe) string {
 	before, _ := w.store.Stats()
 	rec := serve(h, p.req)
 	ans := fmt.Sprint(rec.Code)
+	if p.api == "pull" && rec.Code == 200 {
+		// whose messages were handed out (every slot route holds a stock of messages, see c18Stock)
+		var m struct {
+			Items []struct {
+				Route string `json:"route"`
+			} `json:"items"`
+		}
+		if json.Unmarshal(rec.Body.Bytes(), &m) == nil && len(m.Items) > 0 {
+			ans += ":" + m.Items[0].Route
+		}
+	}
 	if p.api == "ingress" && rec.Code == 202 {
 		// which route took it: newest message
 		after, _ := w.store.Stats()
@@ -228,6 +240,9 @@ type C18Case struct {
 	Mode  string  `json:"mode"`            // pause | body-read | forward-callout | failed
 	Pause string  `json:"pause,omitempty"` // hook label for mode pause
 	Fail  string  `json:"fail,omitempty"`  // kind of failing new content
+	// Warm: the whole battery has already been answered once under the old configuration when the
+	// reload arrives (whatever the process remembers from serving requests is then in place).
+	Warm bool `json:"warm,omitempty"`
 }
 
 func genC18Case() *rapid.Generator[C18Case] {
@@ -265,6 +280,7 @@ func genC18Case() *rapid.Generator[C18Case] {
 		}
 		c.Mode = rapid.SampledFrom([]string{"pause", "pause", "body-read", "body-read", "failed"}).Draw(t, "mode")
 		c.Pause = rapid.SampledFrom([]string{"state.write-unlocked", "state.write-unlocked", "reload.after-loadauth", "reload.after-updateall"}).Draw(t, "pause")
+		c.Warm = rapid.Bool().Draw(t, "warm")
 		c.Fail = rapid.SampledFrom([]string{"removed", "directory", "garbage", "uncompilable", "secret-missing", "secret-missing-adaptive", "secret-missing-ratelimit", "restart-listen", "restart-max-body", "restart-prefix", "truncated"}).Draw(t, "fail")
 		return c
 	})
@@ -291,6 +307,28 @@ func answersDiff(a, b []string) int {
 	return n
 }
 
+// c18Stock gives every slot route a stock of queued messages, so that an authorized dequeue always
+// hands out a message and its route shows whose messages a pull endpoint serves.
+func c18Stock(w *frontWorld) {
+	for _, p := range slotPaths {
+		for k := 0; k < 64; k++ {
+			_ = w.store.Enqueue(queue.Envelope{ID: fmt.Sprintf("stock-%s-%d", p, k), Route: p, Target: "pull", Payload: []byte("s")})
+		}
+	}
+	w.clk.add(time.Millisecond)
+}
+
+// c18SameAnswer: equal, or two successful dequeues of which one found nothing to hand out.
+func c18SameAnswer(name, a, b string) bool {
+	if a == b {
+		return true
+	}
+	if strings.HasPrefix(name, "pull ") && (a == "204" || b == "204") && (strings.HasPrefix(a, "20") && strings.HasPrefix(b, "20")) {
+		return true
+	}
+	return false
+}
+
 func runC18(c C18Case, tolerate bool) *fOutcome {
 	out := newFOutcome()
 	verifhook.Reset()
@@ -302,6 +340,7 @@ func runC18(c C18Case, tolerate bool) *fOutcome {
 			out.Failure = ffail("HARNESS", "world", 0, "%v\n%s", err, src)
 			return nil
 		}
+		c18Stock(w)
 		return w
 	}
 	refOld := mkWorld(oldText)
@@ -396,7 +435,7 @@ func runC18(c C18Case, tolerate bool) *fOutcome {
 				out.Labels["forward-callout-timed-out"] = true
 				continue
 			}
-			if vAfter[i] != vRef2[i] {
+			if !c18SameAnswer(names[i], vAfter[i], vRef2[i]) {
 				out.Failure = ffail("C18", "failed-reload-changed-behaviour", i, "after a failed reload (%s) probe %q answers %s, an untouched process answers %s (before: %s)", c.Fail, names[i], vAfter[i], vRef2[i], vBefore[i])
 				return out
 			}
@@ -405,6 +444,10 @@ func runC18(c C18Case, tolerate bool) *fOutcome {
 		return out
 
 	case "pause":
+		if c.Warm {
+			_ = runBattery(w, "t0")
+			out.Labels["warm-before-reload"] = true
+		}
 		vOld := runBattery(refOld, "t1")
 		vNew := runBattery(refNew, "t1")
 		ndiff := answersDiff(vOld, vNew)
@@ -437,7 +480,7 @@ func runC18(c C18Case, tolerate bool) *fOutcome {
 				out.Labels["forward-callout-timed-out"] = true
 				continue
 			}
-			if vMid[i] != vOld[i] && vMid[i] != vNew[i] {
+			if !c18SameAnswer(names[i], vMid[i], vOld[i]) && !c18SameAnswer(names[i], vMid[i], vNew[i]) {
 				f := ffail("C18", "mixed-configuration", i, "at %s probe %q answers %s; entirely-old answers %s, entirely-new answers %s\nold:\n%s\nnew:\n%s", c.Pause, names[i], vMid[i], vOld[i], vNew[i], oldText, newText)
 				if strings.HasPrefix(vMid[i], "202") && !strings.HasPrefix(vOld[i], "202") && !strings.HasPrefix(vNew[i], "202") {
 					f.Prop = "C18,C08" // accepted under a mixture although neither configuration accepts it: an authentication bypass
@@ -461,13 +504,13 @@ func runC18(c C18Case, tolerate bool) *fOutcome {
 				out.Labels["forward-callout-timed-out"] = true
 				continue
 			}
-			if vAfter[i] != vNew2[i] {
-				// the in-reload battery may have consumed/queued differently than the reference; only
-				// status classes that do not depend on queue contents are compared strictly
-				if strings.HasPrefix(names[i], "pull ") && (vAfter[i] == "200" || vAfter[i] == "204") && (vNew2[i] == "200" || vNew2[i] == "204") {
-					continue
+			if !c18SameAnswer(names[i], vAfter[i], vNew2[i]) {
+				f := ffail("C18", "after-reload-not-new", i, "after the reload (battery answered once before it: %v) probe %q answers %s, a process started on the new config answers %s\nold:\n%s\nnew:\n%s", c.Warm, names[i], vAfter[i], vNew2[i], oldText, newText)
+				if strings.HasPrefix(names[i], "pull ") && strings.HasPrefix(vAfter[i], "200") {
+					// messages were handed out to a caller, or from a route, the configuration in force does not allow
+					f.Prop = "C18,C11"
 				}
-				out.Failure = ffail("C18", "after-reload-not-new", i, "after the reload probe %q answers %s, a process started on the new config answers %s", names[i], vAfter[i], vNew2[i])
+				out.Failure = f
 				return out
 			}
 		}
@@ -501,8 +544,9 @@ func runC18(c C18Case, tolerate bool) *fOutcome {
 		}
 		for i, p := range ing {
 			// fresh world per probe: each probe needs its own reload moment
-			wi := mkWorld(oldText)
-			if wi == nil {
+			wi, err := newFrontWorld(oldText, worldOpts{withFile: true})
+			if err != nil {
+				out.Failure = ffail("HARNESS", "world", 0, "%v\n%s", err, oldText)
 				return out
 			}
 			_ = os.WriteFile(wi.cfgPath, []byte(newText), 0o600)
@@ -829,6 +873,25 @@ func TestProp_C18_MgmtRollback(t *testing.T) {
 }
 
 var _ = json.Marshal
+
+// TestProp_C11_AfterReload: the reload pairs for C11's share - after a reload, with everything the
+// process remembers from the requests it served before, no pull endpoint hands out messages to a caller
+// (or from a route) the configuration in force does not allow.
+func TestProp_C11_AfterReload(t *testing.T) {
+	gen := rapid.Custom(func(t *rapid.T) C18Case {
+		c := genC18Case().Draw(t, "case")
+		c.Mode, c.Warm = "pause", true
+		return c
+	})
+	frontProp(t, "C11", "TestProp_C11_AfterReload", gen, func(c C18Case, tol bool) *fOutcome {
+		out := runC18(c, tol)
+		if f := out.Failure; f != nil && f.Prop != "HARNESS" && !strings.Contains(f.Prop, "C11") {
+			out.Failure = nil
+			out.Labels["foreign-clause"] = true
+		}
+		return out
+	})
+}
 
 // TestProp_C08_ReloadWindow: the reload pairs for C08's share - no request is accepted inside a
 // reload that neither the old nor the new configuration would accept.
